@@ -1,5 +1,6 @@
 (* C15 — writability never hinges on byte-size coincidences. Statements only. *)
 From DV Require Import Model.Reader Proofs.SegmentP.
+From DV Require Import Model.ApiDispatch Proofs.FileP.
 
 (* every accepted maximum record length (even, 20..16384), every valid label, records of ANY body length
    (0, 1, ..., 11, odd, many capacities): the write succeeds *)
@@ -20,6 +21,17 @@ Theorem C15_short_body : forall eflr ty first last chunk,
   /\ seg_wf (aseg eflr ty first last chunk) = true.
 Proof. exact short_body_padded. Qed.
 
+(* over the modelled API: once the specification has passed its checks and the records of every logical file have been
+   produced (whatever their sizes), an accepted record length and a valid label are all the write needs — no body
+   length, no coincidence of lengths with the segment capacity can make it fail *)
+Theorem C15_api_total : forall hc st w st1 st2 perlf st3 recs,
+  Inv st ->
+  check_all hc 0 (b_lfs st) st = OK st1 -> setup_all hc w 0 (b_lfs st1) st1 [] = (st2, OK perlf) ->
+  records_all 0 perlf st2 [] = (st3, OK recs) ->
+  check_vrl (w_vrl w) = true -> sul_valid {| sul_seq := w_seq w; sul_vrl := w_vrl w; sul_id := w_ident w |} ->
+  exists bs, write hc st w = (st3, OK bs).
+Proof. exact write_total_after_records. Qed.
+
 (* non-vacuity: the smallest accepted record length with a 1-byte body and a 6-byte body *)
 Example C15_ex : exists bs,
   write_file {| sul_seq := 1; sul_vrl := 20; sul_id := [65] |}
@@ -30,3 +42,4 @@ Proof. eexists. split; [vm_compute; reflexivity | reflexivity]. Qed.
 Print Assumptions C15_total.
 Print Assumptions C15_plan_total.
 Print Assumptions C15_short_body.
+Print Assumptions C15_api_total.
